@@ -40,8 +40,7 @@ def _apps(term, funcs, out, seen):
                     if z3.is_int(a):
                         out[a.get_id()] = a
             stack.extend(t.children())
-        elif z3.is_quantifier(t):
-            stack.append(t.body())
+        # quantifier bodies are not searched: their index terms contain bound variables
 
 
 def instantiate(facts, formulas, funcs, seeds=(), rounds=2, limit=40):
